@@ -543,10 +543,10 @@ theorem applyMods_frame (origOff i : Nat) (func : Option Nat) : ∀ (ms : List M
           split at h
           · cases h
           · rename_i ir1 last hloop
-            obtain ⟨hfresh, hnext⟩ := hnew
+            obtain ⟨hfresh, _, hnext⟩ := hnew
             obtain ⟨ir0, hins, hlb, hli, hln⟩ := loopInsert_ok hloop
             have hst : ∀ c ∈ p.text.blocks.map (·.id), Stays i ir c :=
-              fun c hc blk hblk => by rw [hfresh c hc] at hblk; cases hblk
+              fun c hc blk hblk => by rw [(hfresh c hc).1] at hblk; cases hblk
             obtain ⟨hI0, hin0⟩ := insert_facts hins hin hI hst
             have f0 := insert_frame hins hin hI hst
             have hI1 : IdsBelow ir1 := hI0.mono (ids_of_blocks hlb) (by rw [hln]; exact Nat.le_refl _)
